@@ -9,6 +9,7 @@ package main
 // Injected into cmd/glyph at check time; never committed to /repo.
 
 import (
+	"net/http"
 	"encoding/json"
 	"fmt"
 	"os"
@@ -47,7 +48,7 @@ func c08Run(s *sim.Sim, p *sim.Params) {
 
 const c08secret = "c08-secret-token"
 
-const c08pure = `
+var c08pure = c08nest(`
 const DEFAULTS = {retries: 3, seen: 0, tags: ["base"]}
 
 : Item {
@@ -84,9 +85,63 @@ const DEFAULTS = {retries: 3, seen: 0, tags: ["base"]}
   > a
 }
 
+! deepen(x: int): int {
+  > x + (NEST140)
+}
+
+! isBig(x: int): bool {
+  > x + (NEST90) > 100
+}
+
 @ GET /pure/fact/:n {
   $ k = parseInt(n)
   > {route: "fact", n: k, value: fact(k)}
+}
+
+@ GET /pure/cb/:n {
+  $ k = parseInt(n)
+  $ ys = map([k, k + 1, k + 2], deepen)
+  $ big = filter([k, k + 90], isBig)
+  > {route: "cb", ys: ys, big: big}
+}
+
+@ GET /pure/nested/:n {
+  $ k = parseInt(n)
+  $ outer = async {
+    $ i = 0
+    $ acc = 0
+    while i < 4 {
+      acc = acc + i
+      i = i + 1
+    }
+    $ inner = async {
+      > k * 3
+    }
+    $ v = await inner
+    > v + acc
+  }
+  $ r = await outer
+  > {route: "nested", value: r}
+}
+
+@ GET /out/plain/:what {
+  $ r = http.get("http://up.sim/" + what)
+  > {route: "out-plain", status: r.status, body: r.body}
+}
+
+@ GET /out/hurried/:what {
+  $ r = http.get({url: "http://up.sim/" + what, timeout: 150})
+  > {route: "out-hurried", status: r.status, body: r.body}
+}
+
+@ GET /out/nofollow {
+  $ r = http.get({url: "http://up.sim/moved", followRedirects: false})
+  > {route: "out-nofollow", status: r.status}
+}
+
+@ GET /out/patient/:what {
+  $ r = http.get({url: "http://up.sim/" + what, timeout: 90000, headers: {Trace: what}})
+  > {route: "out-patient", status: r.status, body: r.body}
 }
 
 @ GET /pure/depth/:n {
@@ -171,7 +226,20 @@ const DEFAULTS = {retries: 3, seen: 0, tags: ["base"]}
   }
   > {route: "ticket", title: input.title, labels: input.labels, meta: input.meta}
 }
-`
+`)
+
+// c08nest spells out the deeply nested expressions of the corpus: NESTn is 1 + (1 + (... + 1)),
+// n levels deep — deep for one evaluation, far below the interpreter's limit of 500
+func c08nest(src string) string {
+	for _, n := range []int{140, 90} {
+		e := "1"
+		for k := 0; k < n-2; k++ {
+			e = "1 + (" + e + ")"
+		}
+		src = strings.ReplaceAll(src, fmt.Sprintf("NEST%d", n), e)
+	}
+	return src
+}
 
 // c08compiled: routes the bytecode compiler and VM support (no user functions, no parseInt)
 const c08compiled = `
@@ -378,7 +446,31 @@ func c08desc(r simReq) string {
 
 func c08genPure(s *sim.Sim) simReq {
 	hdr := [][2]string{}
-	switch s.Choose(sim.SWork, 16) {
+	switch s.Choose(sim.SWork, 22) {
+	case 16:
+		// named functions as callbacks of map/filter, each recursing on its own
+		return simReq{path: fmt.Sprintf("/pure/cb/%d", []int{20, 70, 95}[s.Choose(sim.SWork, 3)])}
+	case 17:
+		// a block that starts a block and awaits it
+		return simReq{path: fmt.Sprintf("/pure/nested/%d", s.Choose(sim.SWork, 30))}
+	case 18, 19, 20, 21:
+		// outbound calls to a (simulated) upstream: fast, slow (2 s, well within the default
+		// timeout), redirecting, and very slow (40 s) for the caller that asked for 90 s of patience;
+		// some with per-call options
+		switch s.Choose(sim.SWork, 7) {
+		case 0:
+			return simReq{path: "/out/plain/fast"}
+		case 1, 2:
+			return simReq{path: "/out/plain/slow"}
+		case 3:
+			return simReq{path: "/out/hurried/fast"}
+		case 4:
+			return simReq{path: "/out/nofollow"}
+		case 5:
+			return simReq{path: "/out/plain/moved"}
+		default:
+			return simReq{path: "/out/patient/" + []string{"slow", "glacial"}[s.Choose(sim.SWork, 2)]}
+		}
 	case 14, 15:
 		// a request starts from a module-level constant object and adjusts its own copy
 		return simReq{path: fmt.Sprintf("/pure/defaults/%d", 1+s.Choose(sim.SWork, 50))}
@@ -414,6 +506,21 @@ func c08genPure(s *sim.Sim) simReq {
 		hdr = append(hdr, [2]string{"Authorization", "Bearer " + c08secret})
 		return simReq{path: fmt.Sprintf("/guarded/%d", s.Choose(sim.SWork, 40)), headers: hdr}
 	}
+}
+
+// c08upstream: the server the corpus calls out to; a pure function of the request.
+func c08upstream(req *http.Request) (int, http.Header, string, time.Duration) {
+	switch req.URL.Path {
+	case "/fast":
+		return 200, http.Header{"Content-Type": {"text/plain"}}, "fast", 5 * time.Millisecond
+	case "/slow":
+		return 200, http.Header{"Content-Type": {"text/plain"}}, "slow" + req.Header.Get("Trace"), 2 * time.Second
+	case "/glacial":
+		return 200, http.Header{"Content-Type": {"text/plain"}}, "glacial" + req.Header.Get("Trace"), 40 * time.Second
+	case "/moved":
+		return 302, http.Header{"Location": {"/fast"}}, "", time.Millisecond
+	}
+	return 404, http.Header{}, "no such page", time.Millisecond
 }
 
 func c08genCompiled(s *sim.Sim) simReq {
@@ -462,9 +569,20 @@ func c08Server(s *sim.Sim, p *sim.Params, providers bool) {
 	if err != nil {
 		s.InfraFail("C08: corpus does not load: " + err.Error() + "\n" + simLogTail())
 	}
+	s.SetUpstream("up.sim", c08upstream)
 	sample = append(sample, fmt.Sprintf("mode=server providers=%v compiled=%v", providers, sv.compiled))
 	ntasks := 2 + s.Choose(sim.SWork, 7)
 	maxReq := 4
+	crowd := !providers && interp && s.Choose(sim.SWork, 8) == 0
+	crowdFocus := 0
+	if crowd {
+		// "crowd" runs: a hundred or so clients with one or two requests each, all in flight at once
+		ntasks = 70 + s.Choose(sim.SWork, 60)
+		maxReq = 2
+		s.SetLimits(6_000_000, 0)
+		s.Probe("crowd-run")
+		crowdFocus = s.Choose(sim.SWork, 4)
+	}
 	if p.Tier == "thorough" && s.Choose(sim.SWork, 3) == 0 {
 		// the thorough tier also explores wider and longer runs
 		ntasks = 6 + s.Choose(sim.SWork, 8)
@@ -477,7 +595,17 @@ func c08Server(s *sim.Sim, p *sim.Params, providers bool) {
 		n := 1 + s.Choose(sim.SWork, maxReq)
 		for k := 0; k < n; k++ {
 			var r simReq
-			if !providers && interp {
+			if crowd && crowdFocus > 0 {
+				// the whole crowd asks for the same kind of thing
+				switch crowdFocus {
+				case 1:
+					r = simReq{path: fmt.Sprintf("/pure/nested/%d", s.Choose(sim.SWork, 30))}
+				case 2:
+					r = simReq{path: fmt.Sprintf("/pure/cb/%d", []int{20, 70, 95}[s.Choose(sim.SWork, 3)])}
+				default:
+					r = simReq{path: fmt.Sprintf("/pure/async/%d", s.Choose(sim.SWork, 30))}
+				}
+			} else if !providers && interp {
 				r = c08genPure(s)
 			} else if !providers {
 				r = c08genCompiled(s)
@@ -575,6 +703,11 @@ func c08Server(s *sim.Sim, p *sim.Params, providers bool) {
 				if _, ok := solo[k]; !ok {
 					solo[k] = ref.do(r)
 					s.Quiesce(0)
+					if strings.HasPrefix(r.path, "/out/") && solo[k].status != 200 {
+						// what the upstream does is known: every outbound call of the corpus is
+						// answered well within the time its caller allows
+						s.Fail("oracle", "outbound-call-fails-alone:"+c08route(r.path), fmt.Sprintf("%s, alone on a fresh server, answered %d %s; its upstream answers well within the time the call allows\n%s", k, solo[k].status, strings.TrimSpace(solo[k].body), strings.Join(sample, "\n")))
+					}
 					if solo[k].status >= 500 {
 						lg := simLogTail()
 						if len(lg) > 600 {
